@@ -29,7 +29,7 @@ pub fn run(outdir: &str, seed: u64, thorough: bool) -> serde_json::Value {
         let mut r = rng.fork();
         if i % 25 == 24 { data = gen_data(&mut r, &w.specs, 12); db = Db::new(&w.specs, &data); }
         let depth = r.range(0, 2) as u32;
-        let (q0, cols) = { let mut g = QGen::new(&mut r, &w.specs); g.allow_outer = true; g.query(depth) };
+        let (q0, cols) = { let mut g = QGen::new(&mut r, &w.specs); g.bool_items = true; g.allow_outer = true; g.query(depth) };
         let is_set = q0.contains(" UNION ") || q0.contains(" INTERSECT ") || q0.contains(" EXCEPT ");
         let (sql, ordered) = if is_set { (q0.clone(), false) } else { decorate(&mut r, &q0, &cols) };
         let rel = match catch_unwind(AssertUnwindSafe(|| to_relation(&w, &sql))) { Ok(Ok(rel)) => rel, Ok(Err(_)) => { st.bump("query_rejected"); continue; } Err(_) => { st.bump("query_panicked"); continue; } };
